@@ -850,6 +850,30 @@ func checkMVLight(c mvLightCase) *vk.Failure {
 		if p := dir.Prob(x); !closeRel(p, math.Exp(got), 1e-13) {
 			fs.add(F("prob-exp-logprob", "Prob=%v exp(LogProb)=%v", p, math.Exp(got)))
 		}
+		// a point of the simplex with a zero coordinate: where alpha_i == 1 the
+		// factor x_i^(alpha_i-1) is 1, so the density is that of the other
+		// coordinates (finite if they are positive)
+		for i0 := range alpha {
+			if alpha[i0] != 1 {
+				continue
+			}
+			xb := make([]float64, d)
+			wantB := lgs
+			for i := range xb {
+				lg, _ := math.Lgamma(alpha[i])
+				wantB -= lg
+				if i != i0 {
+					xb[i] = 1 / float64(d-1)
+					wantB += (alpha[i] - 1) * math.Log(xb[i])
+				}
+			}
+			if got := dir.LogProb(xb); math.IsNaN(got) {
+				fs.add(F("logprob-nan-at-boundary", "alpha=%v LogProb(%v)=NaN on the boundary of the simplex; the density there is exp(%v)", alpha, xb, wantB))
+			} else if !(math.Abs(got-wantB) <= 1e-12*(1+math.Abs(wantB))) {
+				fs.add(F("logprob-at-boundary", "alpha=%v LogProb(%v)=%v want %v", alpha, xb, got, wantB))
+			}
+			break
+		}
 		wm := make([]float64, d)
 		for i := range wm {
 			wm[i] = alpha[i] / sum
